@@ -2,6 +2,7 @@ import Driver.Util
 import Hv.Misc.Name
 import Hv.Misc.XXHash
 import Hv.Misc.Routing
+import Hv.Misc.Stack
 
 /-! Line-protocol driver for the addressing model (domain C20).  Same ops and reply format as
     `/verif/harness/c20.go`.  The hash is the Lean xxhash64 (differential-tested by this very
@@ -51,9 +52,48 @@ def pathOf (cfg : Cfg) (n : Name) (island : Nat) (depth per : Int) : String :=
 def tri (s : String) : Bool := s == "yes"
 def natArg (kv : List (String × String)) (k : String) : Nat := ((arg kv k).toNat?).getD 0
 
-def step (cfg : Cfg) (_ : Unit) (line : String) : Unit × String :=
+def renderDisk (disk : List Loc) : String :=
+  if disk.isEmpty then "-" else ",".intercalate ((disk.mergeSort fun a b => a.island ≤ b.island).map renderLoc)
+
+def showReply : Hv.Stack.Reply → String
+  | .served _ => "ok"
+  | .refused => "refused"
+  | .present b => toString b
+  | .closed => "closed"
+  | .crash => "panic"
+
+/-- the `srv` op on the model of the serving stack (Hv/Misc/Stack.lean) -/
+def srvOp (cfg : Cfg) (threeParts : Bool) (h i1 i2 : Nat) (depth per : Int) : String :=
+  let st := Hv.Stack.step cfg 1000 depth per
+  let (s1, r1) := st Hv.Stack.Srv.empty (.data i1 h)
+  let (s2, _) := st s1 .closeAll
+  let (s3, r3) := st s2 (.probe i2 h)
+  let (s4, r4) := st s3 (.data i2 h)
+  let (s5, _) := st s4 .closeAll
+  let (s6, r6) := st s5 (.probe (i1 + i2 + 1) h)
+  -- a four-part name: refused by the gateway; without that rule Load keeps the first three parts
+  let (s7, r7) := st s6 (if threeParts then .malformed else .data i1 h)
+  let (s8, _) := st s7 .closeAll
+  let two := s5.disk.length > 1
+  s!"set1={showReply r1} p1={renderDisk s2.disk} ex2={showReply r3} set2={showReply r4} p2={renderDisk s5.disk} ex3={showReply r6} four={showReply r7} p3={renderDisk s8.disk}" ++
+    (if two then "\t#F:C20-island-unvalidated" else "")
+
+def step (cfg : Cfg) (threeParts : Bool) (_ : Unit) (line : String) : Unit × String :=
   match line.splitOn " " with
   | ["case", _] => ((), line)
+  | ["srv", s, r, w, a, b, d, p] =>
+    match field s, field r, field w, a.toNat?, b.toNat?, d.toInt?, p.toInt? with
+    | some s, some r, some w, some i1, some i2, some depth, some per =>
+      if depth < 0 || depth > 8 || per < 1 then ((), "bad-op") else
+      ((), srvOp cfg threeParts (hashOf (canon ⟨s, r, w⟩)) i1 i2 depth per)
+    | _, _, _, _, _, _, _ => ((), "bad-op")
+  | ["wire", s, r, w, nn] =>
+    match field s, field r, field w, nn.toNat? with
+    | some s, some r, some w, some N =>
+      if N == 0 then ((), "bad-op") else
+      -- every RPC carries GetIslandID(N) of the name: one island
+      ((), s!"islands={showOpt (sdkIsland cfg (islandHash ⟨s, r, w⟩) N)} reached=ok")
+    | _, _, _, _ => ((), "bad-op")
   | ["n", s, r, w, nn, d, p] =>
     match field s, field r, field w, nn.toNat?, d.toInt?, p.toInt? with
     | some s, some r, some w, some N, some depth, some per =>
@@ -157,8 +197,8 @@ def run (args : List String) : IO UInt32 := do
   let cfg : Cfg :=
     ⟨tri (arg kv "sdkPlusOne"), tri (arg kv "srvPlusOne"), natArg kv "srvBits", arg kv "hexVerb" == "no",
      natArg kv "cplMin", tri (arg kv "sliceClampsStart"), tri (arg kv "ctorsRejectSlash"),
-     natArg kv "defDepth", natArg kv "defPer", tri (arg kv "routeValidatesRanges"), tri (arg kv "islandCacheKeyedByN"), tri (arg kv "pathCacheKeyedByArgs"), tri (arg kv "unroutedReturnsError")⟩
-  lineLoop (step cfg) ()
+     natArg kv "defDepth", natArg kv "defPer", tri (arg kv "routeValidatesRanges"), tri (arg kv "islandCacheKeyedByN"), tri (arg kv "pathCacheKeyedByArgs"), tri (arg kv "unroutedReturnsError"), tri (arg kv "serverChecksIsland")⟩
+  lineLoop (step cfg (arg kv "gatewayThreeParts" != "no")) ()
   return 0
 
 end Driver.C20
